@@ -118,7 +118,13 @@ def specs(R):
     U3 = lambda a: UU.euler_rotation_matrix(a)  # noqa  3-D rotation matrices
     S = {
         "affine_flow": [((R["hom"], grid), {})],
-        "as_one_hot_tensor": [((torch.randint(0, 3, (N, 1, *sp)), 3), {})],
+        # (ignore_index: the label map is edited before scattering -- on a private copy, also for int64 labels, other int types
+        #  and float dtype of the result; the labels contain the ignored value)
+        "as_one_hot_tensor": [((torch.randint(0, 3, (N, 1, *sp)), 3), {}),
+                              ((torch.randint(0, 4, (N, 1, *sp)), 3), {"ignore_index": 3}),
+                              ((torch.randint(0, 4, (N, 1, *sp)).fill_(3), 3), {"ignore_index": 3, "dtype": torch.float32}),
+                              ((torch.randint(0, 4, (N, 1, *sp), dtype=torch.int32), 3), {"ignore_index": 3}),
+                              ((torch.randint(0, 3, (N, 1, *sp)), 3), {"ignore_index": 0})],
         "batched_index_select": [((r(N, 5, 3), 1, torch.zeros(N, 2, dtype=torch.long)), {})],
         "bspline_interpolation_weights": [((3, 2), {})],
         "center_crop": [((img, tuple(s - 2 for s in reversed(sp))), {})],
@@ -228,7 +234,9 @@ def specs(R):
         "tversky_loss": [((img, binary), {})],
         "tversky_loss_with_logits": [((r(N, C, *sp), binary), {})],
         "kld_loss": [((r(N, 4), r(N, 4)), {})],
-        "label_smoothing": [((torch.randint(0, 3, (N, 1, *sp)),), {"num_classes": 3})],
+        "label_smoothing": [((torch.randint(0, 3, (N, 1, *sp)),), {"num_classes": 3}),
+                            ((torch.randint(0, 4, (N, 1, *sp)),), {"num_classes": 3, "ignore_index": 3}),
+                            ((torch.randint(0, 3, (N, 1, *sp)),), {"num_classes": 3, "ignore_index": 0})],
         "lcc_loss": [((img, img * 0.9), {"kernel_size": 3}), ((img, img * 0.9), {"mask": mask, "kernel_size": 3})],
         "wlcc_loss": [((img, img * 0.9), {"kernel_size": 3}), ((img, img * 0.9), {"mask": mask, "source_mask": mask, "target_mask": mask, "kernel_size": 3})],
         "ncc_loss": [((img, img * 0.9), {})],
@@ -503,6 +511,15 @@ def make_objects(D):
         objs["MultiLevelTransform[linear]"] = lambda: S.MultiLevelTransform(S.HomogeneousTransform(g(), params=torch.eye(D, D + 1).unsqueeze(0)),
                                                                              S.HomogeneousTransform(g(), params=torch.eye(D, D + 1).unsqueeze(0)))
         objs["MultiLevelTransform[ffd]"] = lambda: S.MultiLevelTransform(S.FreeFormDeformation(g()), S.FreeFormDeformation(g(), stride=2)).update()
+    # composites inside composites: the copies made by condition(...) / grid(g) must not reach the leaves of the receiver
+    if hasattr(S, "SequentialTransform") and hasattr(S, "MultiLevelTransform"):
+        objs["SequentialTransform[nested]"] = lambda: S.SequentialTransform(
+            S.RigidTransform(g()), S.MultiLevelTransform(S.FreeFormDeformation(g()), S.FreeFormDeformation(g(), stride=2))).update()
+        objs["MultiLevelTransform[nested]"] = lambda: S.MultiLevelTransform(
+            S.SequentialTransform(S.Translation(g(), params=torch.full((1, D), 0.1)), S.DisplacementFieldTransform(g())),
+            S.StationaryVelocityFieldTransform(g())).update()
+        objs["SequentialTransform[nested2]"] = lambda: S.SequentialTransform(
+            S.SequentialTransform(S.SequentialTransform(S.Translation(g()), S.DisplacementFieldTransform(g())))).update()
     # transformers wrap a transform: condition(...) must leave the wrapped transform of the receiver as it was
     if hasattr(S, "ImageTransformer"):
         objs["ImageTransformer"] = lambda: S.ImageTransformer(S.Translation(g(), params=torch.full((1, D), 0.1)).update())
